@@ -3510,4 +3510,16 @@ impl EGraph {
             })
             .collect()
     }
+
+    /// Verification hook (compiled only with `--cfg egglog_verif`): the top-level actions of that
+    /// program (what the proof checker accepts `Fiat` steps from), in program order.
+    pub fn verif_proof_globals(&self) -> Vec<ast::GenericAction<ResolvedCall, ResolvedVar>> {
+        self.proof_check_program
+            .iter()
+            .filter_map(|cmd| match cmd {
+                ast::GenericNCommand::CoreAction(action) => Some(action.clone()),
+                _ => None,
+            })
+            .collect()
+    }
 }
